@@ -423,6 +423,14 @@ def run(ctx):
                     case["renumber"] = True
             ctx.case(case, nontrivial=rc["n"] >= 3, klass=f"motion{m}/{case['by']}")
             execute(ctx, case)
+        for j, rc in enumerate(G.real_recipes(rng, 1000)):
+            if j % ctx.nshards == ctx.shard:
+                case = {"tree": rc, "mseed": int(rng.integers(0, 2**31 - 1)), "rotate": True,
+                        "translate": 120.0, "scale": 0.5, "renumber": True, "by": "harness",
+                        "steps": 20, "volume": False}
+                ctx.case(case, klass="real-morphology")
+                ctx.count("real_morphologies")
+                execute(ctx, case)
     ctx.count("tap_sholl_get", tap.counts["sholl_get"])
 
 
